@@ -12,7 +12,11 @@ POOL_MAX = 6
 SAVE_FORMATS = ['h5', 'xtc', 'dcd', 'nc', 'pdb', 'xyz', 'gro', 'trr', 'lammpstrj', 'mdcrd']
 CELL_FORMATS = ['h5', 'nc', 'dcd', 'xtc', 'trr', 'lammpstrj', 'gro', 'pdb', 'dtr', 'mdcrd', 'mdcrd', 'rst7', 'ncrst', 'rst7']
 ANALYSES = ['distances', 'rg', 'com', 'sasa', 'dssp', 'angles', 'dihedrals', 'neighbors', 'contacts', 'displacements',
-            'inertia', 'rmsd_ai']
+            'inertia', 'rmsd_ai',
+            # second batch: the rest of the public per-trajectory observers (none of them documents an in-place change)
+            'drid', 'phi_psi', 'chi_omega', 'kabsch_sander', 'baker_hubbard', 'wernet_nilsson', 'gyration', 'principal_moments',
+            'shape', 'cog', 'density', 'dipole', 'nematic', 'neighborlist', 'contacts_ca', 'closest_contact', 'volumes',
+            'distances_np_pbc', 'angles_pbc', 'dihedrals_pbc', 'smooth', 'image_molecules', 'whole', 'rg_masses', 'copy_ops']
 CELL_KINDS = ['cubic', 'ortho', 'mono', 'hex60', 'hex120', 'truncoct', 'rhombdod', 'tric', 'tric', 'neardeg', 'rhombo60', 'obtuse']
 
 
@@ -1096,6 +1100,63 @@ def execute(check, case, workdir):
                         md.compute_inertia_tensor(t)
                     elif what == 'rmsd_ai' and na >= 3:
                         md.rmsd(t, t, 0, atom_indices=np.arange(min(3, na)))
+                    elif what == 'drid':
+                        md.compute_drid(t)
+                    elif what == 'phi_psi':
+                        md.compute_phi(t, periodic=False)
+                        md.compute_psi(t, periodic=bool(r.randint(2)) and m.complete)
+                    elif what == 'chi_omega':
+                        md.compute_chi1(t, periodic=False)
+                        md.compute_omega(t, periodic=False)
+                    elif what == 'kabsch_sander':
+                        md.kabsch_sander(t)
+                    elif what == 'baker_hubbard':
+                        md.baker_hubbard(t, periodic=bool(r.randint(2)) and m.complete)
+                    elif what == 'wernet_nilsson':
+                        md.wernet_nilsson(t, periodic=False)
+                    elif what == 'gyration':
+                        md.compute_gyration_tensor(t)
+                    elif what == 'principal_moments':
+                        md.principal_moments(t)
+                    elif what == 'shape':
+                        md.asphericity(t)
+                        md.acylindricity(t)
+                        md.relative_shape_antisotropy(t)
+                    elif what == 'cog':
+                        md.compute_center_of_geometry(t)
+                    elif what == 'density' and m.complete:
+                        md.density(t)
+                    elif what == 'dipole':
+                        md.geometry.dipole_moments(t, np.linspace(-0.5, 0.5, na))
+                    elif what == 'nematic' and na >= 2:
+                        md.compute_nematic_order(t, indices='residues')
+                    elif what == 'neighborlist' and na >= 2:
+                        md.compute_neighborlist(t, 0.4, frame=int(r.randint(m.n)), periodic=m.complete)
+                    elif what == 'contacts_ca':
+                        md.compute_contacts(t, 'all', scheme='ca', periodic=False)
+                    elif what == 'closest_contact' and na >= 2:
+                        md.geometry.distance.find_closest_contact(t, np.arange(na // 2), np.arange(na // 2, na), frame=int(r.randint(m.n)), periodic=False)
+                    elif what == 'volumes':
+                        t.unitcell_volumes
+                        t.unitcell_vectors
+                    elif what == 'distances_np_pbc' and na >= 2 and m.complete:
+                        md.compute_distances(t, r.randint(0, na, size=(4, 2)), periodic=True, opt=False)
+                    elif what == 'angles_pbc' and na >= 3 and m.complete:
+                        md.compute_angles(t, r.randint(0, na, size=(3, 3)), periodic=True, opt=bool(r.randint(2)))
+                    elif what == 'dihedrals_pbc' and na >= 4 and m.complete:
+                        md.compute_dihedrals(t, r.randint(0, na, size=(3, 4)), periodic=True, opt=bool(r.randint(2)))
+                    elif what == 'smooth' and m.n >= 4:
+                        t.smooth(3, inplace=False)
+                    elif what == 'image_molecules' and m.complete:
+                        t.image_molecules(inplace=False)
+                    elif what == 'whole' and m.complete:
+                        t.make_molecules_whole(inplace=False)
+                    elif what == 'rg_masses':
+                        md.compute_rg(t, masses=np.array([a.element.mass for a in t.topology.atoms]))
+                    elif what == 'copy_ops':
+                        # results that are new objects by documentation
+                        t.remove_solvent(inplace=False)
+                        t.atom_slice(np.arange(0, na, 2), inplace=False)
                 except Exception as e:
                     res.log.append('%d analysis(%s) raised %s' % (stepno, what, type(e).__name__))
                 else:
